@@ -297,7 +297,8 @@ class Profiles:
                 macros = {}
 
         # save name and raw props/macros if macros change to completely reset
-        self._profileNames.append(profile)
+        if profile not in self._profileNames:
+            self._profileNames.append(profile)
         self._rawProfiles[profile] = {
             'properties': properties.copy(),
             'macros': macros.copy(),
